@@ -136,9 +136,27 @@ def lean_sources():
     return sorted(out)
 
 
-def forbidden_hits():
+def module_closure(modules):
+    """Source files of the given modules and of everything of this project they import."""
+    seen, todo = set(), list(modules)
+    while todo:
+        m = todo.pop()
+        if m in seen or not m.startswith("BiscuitModel"):
+            continue
+        path = os.path.join(LEAN, m.replace(".", "/") + ".lean")
+        if not os.path.exists(path):
+            continue
+        seen.add(m)
+        for line in open(path):
+            mm = re.match(r"\s*import\s+(\S+)", line)
+            if mm:
+                todo.append(mm.group(1))
+    return sorted(os.path.join(LEAN, m.replace(".", "/") + ".lean") for m in seen)
+
+
+def forbidden_hits(modules=None):
     hits = []
-    for p in lean_sources():
+    for p in (module_closure(modules) if modules else lean_sources()):
         body = strip_comments(open(p).read())
         for i, line in enumerate(body.split("\n"), 1):
             if FORBIDDEN.search(line):
@@ -336,7 +354,7 @@ def check(prop, tier, seed):
             violations.append({"key": prop + "/axioms:" + n, "desc": "theorem %s depends on %s" % (n, axs),
                                "replay": {"broken": "axiom audit", "theorem": n, "axioms": axs, "log": alog[-3000:]},
                                "nofail": True})
-        hits = forbidden_hits()
+        hits = forbidden_hits(modules + ["BiscuitModel.Driver.Main"])
         if hits:
             violations.append({"key": prop + "/forbidden", "desc": "forbidden construct in Lean sources",
                                "replay": {"broken": "source audit", "hits": hits[:50]}, "nofail": True})
